@@ -422,7 +422,7 @@ class Expr:
             return Deriv(self.var, self.body.replace_expr(loc.rest, new_expr))
         elif self.is_limit():
             assert loc.head == 0, "replace_expr: invalid location"
-            return Limit(self.var, self.limit, self.body.replace_expr(loc.rest, new_expr))
+            return Limit(self.var, self.lim, self.body.replace_expr(loc.rest, new_expr), self.drt)
         else:
             raise NotImplementedError
 
